@@ -522,6 +522,13 @@ pub fn run(case: &Case) -> Observed {
         obs.marks.push(log.lock().unwrap().0.len());
         obs.t_event.push(now());
         let _ = ctx.send(Cmd::Hold(false));
+        // a probe sends a message and closes its link: the close waits for the message, and the message for the
+        // peer's window (64094ec), so the peer opens the windows of the sessions that are still there
+        for (i, s) in sessions.iter().enumerate() {
+            if s.is_some() && !sess_gone.get(i).copied().unwrap_or(true) {
+                let _ = ctx.send(Cmd::Window(i as u16));
+            }
+        }
         tokio::time::sleep(Duration::from_millis(50)).await;
         // probes: is everything that should be alive still usable?
         for (i, s) in sessions.iter_mut().enumerate() {
